@@ -4,7 +4,7 @@ import os
 
 LEVEL_NOTE = ("Trusted: Coq 8.16.1 kernel (coqc, full .vo; coqchk in thorough), extraction (ExtrOcamlBasic, "
               "ExtrOcamlNativeString), driver/main.ml binary64 NumOps record and wire syntax, harness generators/"
-              "comparison, xlate/pyxlate.py (source-to-Gallina translator for decision and arithmetic expressions and 19 whole function bodies, re-run and "
+              "comparison, xlate/pyxlate.py (source-to-Gallina translator for decision and arithmetic expressions and 21 whole function bodies, re-run and "
               "re-proved equal to the model on every run), coq/Spec/*.v as transcription of the rules; that binary64 satisfies the number laws is proved "
               "for Coq's primitive floats (NumF) and for exact rationals (NumQ). Axioms per theorem: see evidence (Print Assumptions).")
 
@@ -70,7 +70,8 @@ CHECKS = {
             "proved to be the filters of the deme list by four mutually exclusive predicates, each split grouping all split-children of one parent."),
     "C15": ("proof", "Coq proof (fields renamed, validity preserved, lookups, inverse) + exact correspondence incl. name index; exhaustive small maps in thorough",
             "For every valid graph and injective map onto identifiers: every name field carries its new name, the result is Valid, lookup/membership "
-            "by new names succeed and by unused names fail, renaming back restores the graph; non-injective or non-identifier maps are refused."),
+            "by new names succeed and by unused names fail, renaming back restores the graph; non-injective or non-identifier maps are refused. The whole body of "
+            "Graph.rename_demes (and of valid_deme_name) is translated from the current source on every run and proved equal to Model/Rename.v."),
     "C16": ("proof", "Coq proof about Model/IO.v (strict data, Infinity inverse and locality, null walker) + every loader on JSON/YAML text with nulls at every path",
             "stringify leaves no non-finite number outside metadata; unstringify inverts it and touches only deme/migration start_time and the two "
             "defaults; a null reachable by the walker outside top-level metadata is refused. That all six entry points apply the pipeline, and nulls "
